@@ -92,9 +92,11 @@ def nontrivial_static(segs, res, rule_kind):
     return len(seen)
 
 
-def static_check(pid, tier, kinds, cert, rule_kind, rule, sems="GR,CO,PR,ST,SST,STG,ID", lists=1, plan=None, extra=None):
+def static_check(pid, tier, kinds, cert, rule_kind, rule, sems="GR,CO,PR,ST,SST,STG,ID", lists=1, plan=None, extra=None, mc=("PR", "ID", "Range")):
     res = Result(pid, tier)
     vlib.build_harness()
+    # (A) design level: the search procedures are correct for every framework <= 3 arguments and every SAT-oracle schedule
+    static_mc(res, tier, mc)
     sets = af_sets(res, tier)
     allsegs = []
     for (sname, present, oracle, budget) in (plan or static_plan(tier)):
@@ -131,7 +133,7 @@ def c01(tier):
 
 @check("C02")
 def c02(tier):
-    return static_check("C02", tier, "DC", "both", "ACC",
+    return static_check("C02", tier, "DC", "both", "ACC", mc=("Range",), rule=
                         "one event per distinct (framework presentation, semantics, argument, certificate flag, outcome); "
                         "non-trivial = framework with >= 3 arguments and >= 2 attacks")
 
@@ -380,13 +382,18 @@ def c18(tier):
     return res.finish()
 
 
-def static_mc(res, tier):
-    """model checking of the static search machines (Static.tla), when present"""
+def static_mc(res, tier, which=("PR", "ID", "Range")):
+    """model checking of the static search machines: Static.tla (preferred, ideal) and StaticRange.tla (semi-stable, stage)"""
     for cfg in sorted(os.listdir(vlib.SPEC)):
-        if cfg.startswith("MCStatic") and cfg.endswith(".cfg"):
-            if tier != "thorough" and "_N4" in cfg:
-                continue
-            res.add_mc(vlib.mc("MCStatic.tla", cfg=cfg, wd=res.wd, name=cfg[:-4], timeout=3000))
+        if not (cfg.startswith("MCStatic") and cfg.endswith(".cfg")):
+            continue
+        if tier != "thorough" and "_N4" in cfg:
+            continue
+        kind = "Range" if cfg.startswith("MCStaticRange") else cfg.split("_")[1]
+        if kind not in which:
+            continue
+        module = "MCStaticRange.tla" if kind == "Range" else "MCStatic.tla"
+        res.add_mc(vlib.mc(module, cfg=cfg, wd=res.wd, name=cfg[:-4], timeout=3000))
 
 
 @check("C17")
